@@ -372,6 +372,40 @@ theorem init_sizes_1111 (s : Bool) (w f i : Int) (vals : List Rat) :
   unfold Gen.initSizes_1111; init_tac
 
 
+/-! ## `Fxp._overflow_action`: which flags, which kernel -/
+
+/-- overflow is raised iff the rounded element exceeds the maximum, underflow iff it is below the minimum — two independent
+conditions (an `elif` between them would make the second depend on the first). -/
+theorem overflow_flags (f : Fmt) (k : Int) : Gen.overflowFlags k f.lo f.hi = arithFlags f k := by
+  unfold Gen.overflowFlags arithFlags
+  refine Prod.ext ?_ ?_ <;> simp only [] <;>
+    first
+    | rfl
+    | (simp only [decide_eq_decide]; constructor <;> intro h <;> omega)
+    | (simp; done)
+    | (simp <;> omega)
+
+/-- `config.overflow == 'saturate'` clamps with the format's limits: the model's `sat`. -/
+theorem overflow_action_saturate (f : Fmt) (k : Int) :
+    Gen.overflowAction_saturate f.signed f.nword f.nint f.nfrac k f.lo f.hi = ovf .saturate f k := by
+  show _ = sat f k
+  unfold Gen.overflowAction_saturate sat
+  first
+  | rfl
+  | (simp; done)
+  | omega
+
+/-- `config.overflow == 'wrap'` is `utils.wrap` with the object's signedness and word: the model's `wrap`. -/
+theorem overflow_action_wrap (f : Fmt) (k : Int) :
+    Gen.overflowAction_wrap f.signed f.nword f.nint f.nfrac k f.lo f.hi = ovf .wrap f k := by
+  show _ = wrap f k
+  rw [← C03.wrapBits_eq_wrap]
+  unfold Gen.overflowAction_wrap C03.wrapBits
+  first
+  | (simp [toNat_pred]; done)
+  | (cases f.signed <;> simp [toNat_pred])
+
+
 /-! ## The property theorems, restated about the generated rules
 
 `_function_over_one_var` / `_function_over_two_vars` build the result with `Fxp(val, signed=, n_int=, n_frac=)`
